@@ -201,9 +201,14 @@ def wiring(ctx, w: Wiring, meth, op, case, st_mf, ba_mf, racc, where):
         bi += 1
         e = o[1]
         env[e] = ('byte', bi)
-        if e[0] == 'sub' and e[1] == ('attr', PM.SELF, '_symbol_identifiers'):
+        def is_symtab(t):
+            # the serializer's symbol table, kept on the serializer or on an object it keeps (that it is ONE table for the three
+            # files and numbers injectively is C03's one-symbol-table rule)
+            return t == ('attr', PM.SELF, '_symbol_identifiers') or \
+                (t[0] == 'attr' and t[2] == '_symbol_identifiers' and t[1][0] == 'attr' and t[1][1] == PM.SELF)
+        if e[0] == 'sub' and is_symtab(e[1]):
             env[e[2]] = ('byte', bi)          # symbols are identified with their numbers (injective: C03)
-        if e[0] == 'call' and e[1] == ('attr', ('attr', PM.SELF, '_symbol_identifiers'), 'setdefault') and len(e[2]) == 2:
+        if e[0] == 'call' and e[1][0] == 'attr' and e[1][2] == 'setdefault' and is_symtab(e[1][1]) and len(e[2]) == 2:
             env[e[2][0]] = ('byte', bi)       # table.setdefault(name, len(table)): the same lookup-or-assign
         i += 1
     # stack slots
@@ -631,6 +636,9 @@ def run(ctx):
     phase_protocol(ctx, py)
     slot_budget(ctx, py)
     judgement_agreement(ctx, py)
+    # the wiring rows identify a symbol with the number written for it: sound only for ONE injective table per module (shared with C03)
+    from . import c03
+    c03.symbol_table(ctx, py)
     # generator and checker must compute the same pattern for Instantiate and for a resolved substitution: both follow the textbook
     # table (shared with C11 / C05); a checker that instantiates differently rejects the claim the generator published
     from . import c11
